@@ -555,3 +555,10 @@ Proof.
     cbn in *; try reflexivity;
     try (specialize (B1 eq_refl); discriminate); try (specialize (B2 eq_refl); discriminate).
 Qed.
+
+Lemma hook_fault_fails cfg fs rs verdict ab evs h k :
+  run_model cfg fs = (rs, verdict, ab, evs) -> In (EHook h k true) evs -> verdict = true.
+Proof.
+  intros H Hin. rewrite (verdict_iff_bad _ _ _ _ _ _ H). apply existsb_exists.
+  exists (EHook h k true). split; [assumption|reflexivity].
+Qed.
